@@ -16,6 +16,13 @@
 (*            index in a compressed level; a sum is sparse iff both sides  *)
 (*            are; a product iff either side is.  This is what lets a loop *)
 (*            skip coordinates (C16).                                      *)
+(* "subgraphs" generate_subgraphs (iteration_graph/_generate_ir.py): the    *)
+(*            lattice of sub-graphs obtained by exhausting compressed      *)
+(*            operands one at a time (a product dies with any factor, a    *)
+(*            sum loses the term), keyed by the set of operands still      *)
+(*            alive.  Keys == the closure; the ORDER requirement (a        *)
+(*            sub-graph is emitted after every sub-graph it can be derived *)
+(*            from) is what defect #2 violated.                            *)
 (* "default"  default_format_given_nnz(dimensions, nnz): dense levels as   *)
 (*            long as nnz reaches the product of the dimensions so far,    *)
 (*            compressed afterwards.                                       *)
@@ -64,6 +71,32 @@ Sparse(e) == CASE e.k = "leaf" -> e.kind \in {"compressed", "zero", "zerof"}
                [] e.k = "*" -> Sparse(e.l) \/ Sparse(e.r)
 
 --------------------------------------------------------------------------
+(* sub-graph lattice: compressed leaves are numbered left to right; ZERO is an exhausted sub-expression *)
+ZERO == [k |-> "zero", kind |-> ""]
+RECURSIVE Number(_, _)
+Number(e, next) ==   \* returns [e, next]
+  IF e.k = "leaf" THEN [e |-> [k |-> "leaf", kind |-> e.kind, id |-> IF e.kind = "compressed" THEN next ELSE 0],
+                        next |-> IF e.kind = "compressed" THEN next + 1 ELSE next]
+  ELSE LET a == Number(e.l, next) b == Number(e.r, a.next) IN [e |-> [k |-> e.k, kind |-> "", l |-> a.e, r |-> b.e], next |-> b.next]
+IsZeroX(z) == z = ZERO \/ (z.k = "leaf" /\ z.kind = "zero")
+RECURSIVE Ex(_, _), Alive(_)
+Ex(e, x) ==
+  CASE e.k = "zero" -> e
+    [] e.k = "leaf" -> IF e.kind = "compressed" /\ e.id = x THEN ZERO ELSE e
+    [] OTHER -> LET l == Ex(e.l, x) r == Ex(e.r, x) IN
+                IF l = e.l /\ r = e.r THEN e
+                ELSE IF e.k = "+" THEN (IF IsZeroX(l) THEN r ELSE IF IsZeroX(r) THEN l ELSE [e EXCEPT !.l = l, !.r = r])
+                ELSE (IF IsZeroX(l) \/ IsZeroX(r) THEN ZERO ELSE [e EXCEPT !.l = l, !.r = r])
+Alive(e) == CASE e.k = "zero" -> {}
+              [] e.k = "leaf" -> IF e.kind = "compressed" THEN {e.id} ELSE {}
+              [] OTHER -> Alive(e.l) \cup Alive(e.r)
+StepX(frontier) == UNION {{Ex(h, x) : x \in Alive(h)} : h \in frontier}
+RECURSIVE CloseX(_, _)
+CloseX(frontier, seen) ==    \* frontier, seen: sets of expressions
+  LET nxt == StepX(frontier) \ seen IN IF nxt = {} THEN seen ELSE CloseX(nxt, seen \cup nxt)
+SubgraphKeys(e) == {Alive(g) : g \in CloseX({e}, {e})}
+
+--------------------------------------------------------------------------
 (* default format *)
 RECURSIVE NeededDense(_, _, _, _)
 NeededDense(dims, nnz, l, threshold) ==   \* number of leading dense levels
@@ -81,7 +114,7 @@ Pick ==
   /\ CASE Root = "orders" -> \E n \in 0..MaxOrder : \E m \in [1..n -> {"d", "s"}] : item' = [k |-> "modes", modes |-> m] /\ stage' = "done"
        [] Root = "default" -> \E n \in 0..MaxOrder : \E ds \in [1..n -> 0..MaxDim] : \E z \in 0..MaxNnz :
                                  item' = [k |-> "dims", dims |-> ds, nnz |-> z] /\ stage' = "done"
-       [] Root = "sparse" ->
+       [] Root \in {"sparse", "subgraphs"} ->
             IF HolesX(item) = 0 THEN item' = item /\ stage' = "done"
             ELSE /\ stage' = stage
                  /\ \/ \E kd \in LeafKinds : item' = FillX(item, LeafX(kd))
@@ -92,9 +125,14 @@ Spec == Init /\ [][Next]_vars
 RECURSIVE ImgX(_)
 ImgX(e) == IF e.k = "leaf" THEN [k |-> "leaf", kind |-> e.kind] ELSE [k |-> e.k, l |-> ImgX(e.l), r |-> ImgX(e.r)]
 
+RECURSIVE ImgN(_)
+ImgN(e) == IF e.k = "leaf" THEN [k |-> "leaf", kind |-> e.kind, id |-> e.id] ELSE [k |-> e.k, l |-> ImgN(e.l), r |-> ImgN(e.r)]
+
 Line == CASE Root = "orders" -> [root |-> Root, modes |-> item.modes, legal |-> SetToSeq(LegalOrders(item.modes)),
                                  output |-> SetToSeq(OutputOrders(item.modes))]
           [] Root = "default" -> [root |-> Root, dims |-> item.dims, nnz |-> item.nnz, modes |-> DefaultModes(item.dims, item.nnz)]
           [] Root = "sparse" -> [root |-> Root, expr |-> ImgX(item), sparse |-> Sparse(item)]
+          [] Root = "subgraphs" -> LET ne == Number(item, 1).e IN
+                                   [root |-> Root, expr |-> ImgN(ne), keys |-> SetToSeq({SetToSeq(K) : K \in SubgraphKeys(ne)})]
 Emit == stage # "done" \/ PrintT("@@" \o ToJson(Line))
 =============================================================================
